@@ -588,7 +588,11 @@ static RETCODE adfFileSeekOFS_ ( struct AdfFile * const file,
         file->pos += size;
         offset += size;
         file->posInDataBlk += size;
-        if ( file->posInDataBlk == blockSize && offset < pos ) {
+        /* at the end of a block the next one is fetched also when the target
+           is its first byte (pos lies inside the file here): the block that
+           holds pos is the current one afterwards, as adfFileSeekExt_ leaves
+           it - adfFileSeekEOF_ relies on that when it steps on to the end */
+        if ( file->posInDataBlk == blockSize ) {
             if ( adfFileReadNextBlock ( file ) != RC_OK ) {
                 adfEnv.eFct ( "adfFileSeekOFS: error reading next data block, pos %d",
                               file->pos );
